@@ -8,6 +8,11 @@ CHECKS = {
  "C01": ("tracersim", "exploration", "ground-truth oracle per probe (tagged responses, hand-over times) over seeded topologies, delivery faults and socket faults", "4 C01"),
  "C02": ("tracersim", "exploration", "lossless networks x every quoting policy / RFC 4884 layout / in-transit rewrite; sequence sweep per configuration cell (thorough: every sequence up to the wrap); one-field-off foreign quotations", "4 C02"),
  "C03": ("tracersim", "exploration", "adversarial deliveries (duplicates, previous-round replays, foreign, never-sent, unrelated ICMP) judged by ground truth plus a reference model of the round bookkeeping", "4 C03"),
+ "C04": ("tracersim", "fault_enumeration", "enumerated corruption sweep (80 configurations x every length/offset/type field x every 8-bit value or a 16-bit boundary set x a truncation-length set) of genuine responses through the real receive path, strategy and state, plus seeded live corruption and a passive sniffer over all packet views", "4 C04"),
+ "C05": ("tracersim", "exploration", "reference aggregator (plain lists, two-pass formulas) compared with the snapshot after every round, plus conservation laws", "4 C05"),
+ "C14": ("tracersim", "exploration", "extension-emitting responders (RFC 4884 compliant and legacy layouts, arbitrary objects, MPLS stacks); reported extensions must equal the encoded list and the probe must still be recognised", "4 C14"),
+ "C15": ("tracersim", "exploration", "flow invariants and per-flow reference aggregation over ECMP topologies with small flow limits", "4 C15"),
+ "C19": ("tracersim", "exploration", "per-round NAT status recomputed from the quoted checksums on the simulated wire over paths with rewriting devices", "4 C19"),
  "C06": ("tracersim", "exploration", "online send-discipline monitor over wire records and hand-overs", "4 C06"),
  "C07": ("tracersim", "exploration", "sequence arithmetic monitor over long runs from boundary initial sequences with TCP port-collision storms, plus re-delivery of previous-round responses", "4 C07"),
  "C08": ("tracersim", "exploration", "timing predicate evaluated on the exact clock values handed to the tracer (virtual clock, exact tick accounting)", "4 C08"),
@@ -20,14 +25,9 @@ NOT_APPLICABLE = {
  "C13": "the codec half is a pure function of (bytes, addresses); arbitrary contents and the TCP helper are never produced by the running tracer. Its only stateful sentence (Paris probes carry the sequence in the checksum field and still verify) is part of C11's statement and is enforced there (DESIGN.md section 7)",
 }
 PENDING = {
- "C04": "check under construction (tracersim corruption sweep)",
- "C05": "check under construction (reference aggregator)",
- "C14": "check under construction (extension equality)",
- "C15": "check under construction (flow invariants)",
  "C16": "check under construction (builder/CLI combinations)",
  "C17": "check under construction (tuisim)",
  "C18": "check under construction (tuisim)",
- "C19": "check under construction (NAT oracle)",
  "C20": "check under construction (snapsim)",
 }
 
